@@ -321,8 +321,9 @@ def _isometrized_claim(g, claim_call, data, lv, defs):
     if isinstance(lv, ast.Name):
         def visit(stmts, guards):
             for s_ in stmts:
-                if isinstance(s_, ast.Assign) and any(isinstance(t, ast.Name) and t.id == lv.id for t in s_.targets) and guards:
+                if isinstance(s_, ast.Assign) and any(isinstance(t, ast.Name) and t.id == lv.id for t in s_.targets):
                     tests.extend(guards)
+                    tests.extend(x.test for x in ast.walk(s_.value) if isinstance(x, ast.IfExp))
                 if isinstance(s_, ast.If):
                     visit(s_.body, guards + [s_.test])
                     visit(s_.orelse, guards + [s_.test])
@@ -331,10 +332,31 @@ def _isometrized_claim(g, claim_call, data, lv, defs):
                 elif isinstance(s_, ast.Try):
                     visit(s_.body, guards)
         visit(g.node.body, [])
+    # names used in the tests stand for their local definitions (`dl = prod(...)`; `if dl < dr:`)
+    origins = {k: list(v) for k, v in defs.items()}
+    for a_ in ast.walk(g.node):
+        if isinstance(a_, ast.Assign):
+            for t_ in a_.targets:
+                if isinstance(t_, (ast.Tuple, ast.List)):
+                    for e_ in t_.elts:
+                        if isinstance(e_, ast.Name):
+                            origins.setdefault(e_.id, []).append(a_.value)
+    exprs = list(tests)
+    seen_names = set()
+    frontier = list(tests)
+    for _ in range(3):
+        nxt = []
+        for t in frontier:
+            for y in ast.walk(t):
+                if isinstance(y, ast.Name) and y.id in origins and y.id not in seen_names:
+                    seen_names.add(y.id)
+                    nxt.extend(d for d in origins[y.id] if d is not None)
+        exprs.extend(nxt)
+        frontier = nxt
     shape_dep = any(
         (isinstance(x, ast.Attribute) and x.attr in ("shape", "size", "ndim")) or
-        (isinstance(x, ast.Call) and (dotted(x.func) or "").split(".")[-1] in ("ind_size", "inds_size", "prod", "shape", "size"))
-        for t in tests for x in ast.walk(t))
+        (isinstance(x, ast.Call) and (dotted(x.func) or "").split(".")[-1] in ("ind_size", "inds_size", "prod", "shape", "size", "len"))
+        for t in exprs for x in ast.walk(t))
     if shape_dep:
         return True, "yes"
     return False, (f"flags the result of isometrize() as isometric with respect to `{src_of(lv)[:30]}` whatever its shape: a matrix wider than tall only "
